@@ -497,6 +497,9 @@ def run(fx, tier):
     reconnect_discards_buffer_rule(fx, v, 'C19')
     from c02 import raw_io_rule
     raw_io_rule(fx, v, 'C19', 'R-DOM')
+    from c18 import prop_parser_rules
+    v.rule('R-FLOW', 'property-list parser: every value is parsed within the declared list; identifier/value/reject discipline')
+    prop_parser_rules(fx, v, 'C19')
     v.expect_min('R-BOUNDS', 25, 'advance/buffer/span sinks')
     v.expect_min('R-PRE', 12, 'decoder call sites')
     v.expect_min('R-DEREF', 10, 'cursor dereferences × instantiations')
